@@ -90,6 +90,12 @@ theorem writesOp_agree (sched : Sched) (stg : α) (ops : List BodyOp) :
       · exact ih (h.append stg c) _ _
       · exact closeOp_agree sched (h.partialAppend stg c _) _ _ _
       · exact ⟨h.partialAppend stg c _, rfl, rfl, rfl⟩
+    | failingWrite e =>
+      simp only [writesOp]
+      split
+      · exact closeOp_agree sched h _ _ _
+      · exact closeOp_agree sched h _ _ _
+      · exact ⟨h, rfl, rfl, rfl⟩
 
 /-- the block of `staged_write` opens the staging path with "w": whatever was lying there is gone as soon as the
     open succeeds; if the open fails without effect nothing was looked at -/
